@@ -629,3 +629,60 @@ func (d *DomIter) Run(out, in [][]int, root int) error {
 	idom[root] = -1
 	return nil
 }
+
+// DFSWalk computes the depth-first pre- and post-order of the nodes reachable
+// from a root by the definition: a node is listed (pre-order) when it is first
+// reached, its successors are then explored one after another in the order of
+// its adjacency list, skipping those already reached, and it is listed
+// (post-order) when all of them are done. Iterative (explicit stack), so the
+// depth of the graph is not limited by the goroutine stack; reached-marks make
+// it terminate on any graph. It never calls the library.
+type DFSWalk struct {
+	Pre, Post []int
+	seen      []bool
+	node, pos []int
+}
+
+// Run walks the graph with n nodes whose adjacency list of v is list(v).
+// Successors outside 0..n-1 are reported by ok=false (the walk skips them).
+func (d *DFSWalk) Run(n, root int, list func(v int) []int) (ok bool) {
+	ok = true
+	if cap(d.seen) < n {
+		d.seen = make([]bool, n)
+	}
+	d.seen = d.seen[:n]
+	for i := range d.seen {
+		d.seen[i] = false
+	}
+	d.Pre, d.Post = d.Pre[:0], d.Post[:0]
+	d.node, d.pos = d.node[:0], d.pos[:0]
+	if root < 0 || root >= n {
+		return false
+	}
+	d.seen[root] = true
+	d.Pre = append(d.Pre, root)
+	d.node, d.pos = append(d.node, root), append(d.pos, 0)
+	for len(d.node) > 0 {
+		top := len(d.node) - 1
+		v, i := d.node[top], d.pos[top]
+		l := list(v)
+		if i >= len(l) {
+			d.Post = append(d.Post, v)
+			d.node, d.pos = d.node[:top], d.pos[:top]
+			continue
+		}
+		d.pos[top] = i + 1
+		s := l[i]
+		if s < 0 || s >= n {
+			ok = false
+			continue
+		}
+		if d.seen[s] {
+			continue
+		}
+		d.seen[s] = true
+		d.Pre = append(d.Pre, s)
+		d.node, d.pos = append(d.node, s), append(d.pos, 0)
+	}
+	return ok
+}
